@@ -1,18 +1,218 @@
-(* OptTextAscii.v — the text hypotheses of the optimizer theorems (OptTop.text_ok) hold of every byte string when
-   the input is read through the ASCII indexer (the *_ascii entry points): the element at a position is the byte
-   there, and every one-character step moves by exactly one byte inside the text. *)
+(* OptTextAscii.v — the text hypotheses of the optimizer theorems (OptTop.text_ok, text_enc) are discharged where no
+   UTF-8 theory is needed: for an indexer that reads the text bytewise (the element at a position is the byte there,
+   every step moves by one byte): the ASCII indexer on every byte string (the *_ascii entry points), and the UTF-8
+   indexer on ASCII text.  The well-formed positions are all positions of the text; every node stays among them
+   (IRRange.ir_range).  text_enc (a literal is its UTF-8 bytes) needs the text to be ASCII in both cases: through the
+   ASCII indexer a non-ASCII literal is compared with a single byte. *)
 From RV Require Import Base.
 From RV.Model Require Import Utf8 Indexer CodePointSet Insn IR Optimizer Unfold Emit.
 From RV.Spec Require Import IRSem IRShape.
-From RV.Proofs Require Import NodeInd IndexerFacts OptDD OptMono OptWalk OptRel OptTop.
+From RV.Proofs Require Import NodeInd IndexerFacts IRRange MatchRange AsciiUtf8 OptDD OptMono OptWalk OptRel OptBrackets OptBytes OptTop.
 
-Section AsciiText.
+Section Bytewise.
+  Variable ix : indexer.
+  Variable h : hay.
+  Variable unicode : bool.
+  Notation len := (length h).
+  Hypothesis Hb : bytes_ok h.
+  Hypothesis HA1 : forall fwd q, cnext ix fwd h q = next_byte fwd h q.
+  Hypothesis HA2r : forall q, (q <= len)%nat -> ix_next_right_pos ix h q = try_move_right h q 1.
+  Hypothesis HA2l : forall q, (q <= len)%nat -> ix_next_left_pos ix h q = try_move_left h q 1.
+  Hypothesis Hcur : forall (h' : hay) fwd p c p', (p <= length h')%nat -> cnext ix fwd h' p = Ok (Some (c, p')) -> (p' <= length h')%nat.
+  Definition inside (q : nat) : Prop := (q <= len)%nat.
+
+  Lemma bw_byte_step (fwd : bool) (q : nat) b (q1 : nat) : next_byte fwd h q = Ok (Some (b, q1)) ->
+    b < 256 /\ if fwd then q1 = S q /\ (q1 <= len)%nat else q = S q1 /\ (q <= len)%nat.
+  Proof.
+    unfold next_byte. destruct fwd.
+    - unfold peek_byte_right. destruct (q =? len)%nat; cbn [bindR]; [discriminate|].
+      destruct (getb h q) as [e|x] eqn:Eg; cbn [bindR]; [discriminate|]. intro H. inversion H; subst.
+      split; [apply N.ltb_lt; eapply getb_ok; eauto|]. split; [reflexivity|].
+      unfold getb in Eg. destruct (nth_error h q) eqn:En; [|discriminate].
+      assert (q < len)%nat by (apply nth_error_Some; congruence). lia.
+    - unfold peek_byte_left. destruct (q =? 0)%nat eqn:E0; cbn [bindR]; [discriminate|]. apply Nat.eqb_neq in E0.
+      unfold psub. replace (1 <=? q)%nat with true by (symmetry; apply Nat.leb_le; lia). cbn [bindR].
+      destruct (getb h (q - 1)) as [e|x] eqn:Eg; cbn [bindR]; [discriminate|]. intro H. inversion H; subst.
+      split; [apply N.ltb_lt; eapply getb_ok; eauto|]. split; [lia|].
+      unfold getb in Eg. destruct (nth_error h (q - 1)) eqn:En; [|discriminate].
+      assert (q - 1 < len)%nat by (apply nth_error_Some; congruence). lia.
+  Qed.
+
+  Lemma bw_step_inv (fwd : bool) (q q' : nat) : (if fwd then q' = S q /\ (q' <= len)%nat else q = S q' /\ (q <= len)%nat) ->
+    step_inv ix h fwd q q' = true.
+  Proof.
+    intro H. unfold step_inv. destruct fwd.
+    - destruct H as [-> Hle]. rewrite (HA2l (S q) Hle), (HA2r q ltac:(lia)). unfold try_move_left, try_move_right.
+      replace (S q <? 1)%nat with false by (symmetry; apply Nat.ltb_ge; lia).
+      replace (q <=? len)%nat with true by (symmetry; apply Nat.leb_le; lia). cbn [bindR].
+      replace (len - q <? 1)%nat with false by (symmetry; apply Nat.ltb_ge; lia).
+      replace (S q - 1)%nat with q by lia. replace (q + 1)%nat with (S q) by lia.
+      rewrite !Nat.eqb_refl. cbn [andb].
+      replace (q <=? len)%nat with true by (symmetry; apply Nat.leb_le; lia).
+      replace (S q <=? len)%nat with true by (symmetry; apply Nat.leb_le; lia).
+      replace (q <? S q)%nat with true by (symmetry; apply Nat.ltb_lt; lia). reflexivity.
+    - destruct H as [-> Hle]. rewrite (HA2r q' ltac:(lia)), (HA2l (S q') Hle). unfold try_move_left, try_move_right.
+      replace (q' <=? len)%nat with true by (symmetry; apply Nat.leb_le; lia). cbn [bindR].
+      replace (len - q' <? 1)%nat with false by (symmetry; apply Nat.ltb_ge; lia).
+      replace (S q' <? 1)%nat with false by (symmetry; apply Nat.ltb_ge; lia).
+      replace (q' + 1)%nat with (S q') by lia. replace (S q' - 1)%nat with q' by lia.
+      rewrite !Nat.eqb_refl. cbn [andb].
+      replace (S q' <=? len)%nat with true by (symmetry; apply Nat.leb_le; lia).
+      replace (q' <=? len)%nat with true by (symmetry; apply Nat.leb_le; lia).
+      replace (q' <? S q')%nat with true by (symmetry; apply Nat.ltb_lt; lia). reflexivity.
+  Qed.
+
+  Lemma bw_next_if_step fwd q t q' : next_if ix fwd h q t = Ok (Some q') -> step_inv ix h fwd q q' = true.
+  Proof.
+    unfold next_if. rewrite HA1. destruct (next_byte fwd h q) as [e|[[b q1]|]] eqn:En; cbn [bindR]; try discriminate.
+    destruct (t b); [|discriminate]. intro H. inversion H; subst. apply bw_step_inv. apply (bw_byte_step fwd q b q' En).
+  Qed.
+
+  Lemma bw_byte_if_step fwd q t q' : byte_if fwd h q t = Ok (Some q') -> step_inv ix h fwd q q' = true.
+  Proof.
+    unfold byte_if. destruct (next_byte fwd h q) as [e|[[b q1]|]] eqn:En; cbn [bindR]; try discriminate.
+    destruct (t b); [|discriminate]. intro H. inversion H; subst. apply bw_step_inv. apply (bw_byte_step fwd q b q' En).
+  Qed.
+
+  Theorem text_ok_bytewise : text_ok ix unicode h inside.
+  Proof.
+    split; [|split; [|split; [|split; [|split]]]].
+    - intros fwd p c p' Hp E. eapply Hcur; eauto.
+    - intros p p' Hp E. rewrite (HA2r p Hp) in E. unfold try_move_right in E. unfold inside in *.
+      replace (p <=? len)%nat with true in E by (symmetry; apply Nat.leb_le; lia). cbn [bindR] in E.
+      destruct (Nat.ltb_spec (len - p) 1); inversion E; subst. lia.
+    - intros fwd p c p' _ E. rewrite HA1 in E. destruct (bw_byte_step fwd p c p' E) as [Hc _].
+      unfold CODE_POINT_MAX. lia.
+    - intros fwd q _. rewrite HA1. destruct (next_byte fwd h q) as [e|[[b q1]|]] eqn:En; [exact I| |reflexivity].
+      destruct (b <? 128) eqn:E128; [reflexivity|]. exists b, q1. split; [reflexivity|]. apply N.ltb_ge. exact E128.
+    - intros fwd q _. rewrite HA1. destruct (next_byte fwd h q) as [e|[[b q1]|]] eqn:En; [exact I| |reflexivity].
+      destruct (b <? 128) eqn:E128; [reflexivity|]. exists b, q1. split; [reflexivity|]. apply N.ltb_ge. exact E128.
+    - intros body fwd s q q' H1 _ Es Esq.
+      destruct body; try discriminate H1; unfold single_step, leaf_code in Es.
+      + inversion Es; subst s. cbn [run_insns] in Esq. unfold char_pike in Esq.
+        destruct (next_if ix fwd h q (N.eqb c)) as [e|[p1|]] eqn:En; try discriminate.
+        cbn [run_insns] in Esq. inversion Esq; subst. eapply bw_next_if_step; eauto.
+      + unfold emit_char_set in Es. destruct cs as [|c0 cs]; [discriminate H1|].
+        destruct (4 <? length (c0 :: cs))%nat; [discriminate|]. inversion Es; subst s.
+        cbn [run_insns match1] in Esq.
+        match type of Esq with context [next_if ?a ?b ?c ?d ?t] => destruct (next_if a b c d t) as [e|[p1|]] eqn:En end; try discriminate.
+        cbn [run_insns] in Esq. inversion Esq; subst. eapply bw_next_if_step; eauto.
+      + inversion Es; subst s. cbn [run_insns match1] in Esq.
+        match type of Esq with context [next_if ?a ?b ?c ?d ?t] => destruct (next_if a b c d t) as [e|[p1|]] eqn:En end; try discriminate.
+        cbn [run_insns] in Esq. inversion Esq; subst. eapply bw_next_if_step; eauto.
+      + inversion Es; subst s. cbn [run_insns match1] in Esq.
+        match type of Esq with context [next_if ?a ?b ?c ?d ?t] => destruct (next_if a b c d t) as [e|[p1|]] eqn:En end; try discriminate.
+        cbn [run_insns] in Esq. inversion Esq; subst. eapply bw_next_if_step; eauto.
+      + destruct (bracket_as_ascii b) as [bm|].
+        * inversion Es; subst s. cbn [run_insns match1] in Esq.
+          destruct (byte_if fwd h q (ascii_bitmap_contains bm)) as [e|[p1|]] eqn:En; try discriminate.
+          cbn [run_insns] in Esq. inversion Esq; subst. eapply bw_byte_if_step; eauto.
+        * inversion Es; subst s.
+          destruct (next_if ix fwd h q (bracket_matches b)) as [e|[p1|]] eqn:En; try discriminate.
+          inversion Esq; subst. eapply bw_next_if_step; eauto.
+  Qed.
+
+  (* every node stays inside the text *)
+  Lemma lclo_range utf16 n : lclo ix unicode utf16 h inside n.
+  Proof.
+    split.
+    - intros f fwd [p G] r Hx E. exact (ir_range ix unicode utf16 h Hcur f n fwd p G r Hx E).
+    - intros fwd s Es q q' Hq E. unfold single_step in Es. destruct (leaf_code (negb fwd) n) as [code|] eqn:Ec.
+      + injection Es as Hs. subst s. eapply (run_insns_range ix unicode h Hcur code fwd q q' Hq E).
+      + destruct n; try discriminate Es. injection Es as Hs. subst s. cbn beta in E.
+        destruct (next_if ix fwd h q (bracket_matches b)) as [e|[q1|]] eqn:En; inversion E; subst.
+        eapply (next_if_range ix h Hcur); eauto.
+  Qed.
+
+  Lemma al_range utf16 : forall n, al ix unicode utf16 h inside n.
+  Proof.
+    induction n as [n Hleaf|l H|a b IHa IHb|id c nm IHc|neg bw sg eg c IHc|b mn mx g egs ege IHb|b mn mx g IHb] using node_ind2.
+    - destruct n; try contradiction; apply lclo_range.
+    - apply al_cat. exact H.
+    - split; assumption.
+    - exact IHc.
+    - exact IHc.
+    - exact IHb.
+    - exact IHb.
+  Qed.
+
+  (* ---- a literal is its UTF-8 bytes: on ASCII text ---- *)
+  Hypothesis Hascii : Forall (fun b => b < 128) h.
+
+  Lemma bit7_low b : b < 128 -> N.testbit b 7 = false.
+  Proof.
+    intro Hlt. destruct (N.eq_dec b 0) as [->|Hne]; [reflexivity|].
+    apply N.bits_above_log2. apply N.log2_lt_pow2; [lia|exact Hlt].
+  Qed.
+
+  Lemma enc_head_high c : 128 <= c -> exists x t, utf8_encode c = x :: t /\ N.testbit x 7 = true.
+  Proof.
+    intro Hc. unfold utf8_encode. replace (c <? 128) with false by (symmetry; apply N.ltb_ge; exact Hc).
+    destruct (c <? 2048); [|destruct (c <? 65536)]; eexists; eexists; (split; [reflexivity|]); rewrite N.lor_spec; reflexivity.
+  Qed.
+
+  Lemma nth_ascii q b : nth_error h q = Some b -> b < 128.
+  Proof. intro E. rewrite Forall_forall in Hascii. apply Hascii. eapply nth_error_In; eauto. Qed.
+
+  (* a byte string that starts with a byte from 128 up is nowhere in ASCII text *)
+  Lemma high_not_in_text x t a e : N.testbit x 7 = true -> (a < e)%nat -> (e <= len)%nat ->
+    bytes_eqb (x :: t) (slice h a e) = false.
+  Proof.
+    intros Hx Hae He. unfold slice. destruct (skipn a h) as [|y r] eqn:Es.
+    - exfalso. assert (length (skipn a h) = len - a)%nat by apply skipn_length. rewrite Es in H. cbn in H. lia.
+    - replace (e - a)%nat with (S (e - a - 1)) by lia. cbn [firstn]. unfold bytes_eqb. cbn [list_eqb].
+      assert (Hy : nth_error h a = Some y).
+      { rewrite <- (firstn_skipn a h) at 1. rewrite nth_error_app2 by (rewrite firstn_length; lia).
+        rewrite firstn_length. replace (a - Nat.min a len)%nat with 0%nat by lia. rewrite Es. reflexivity. }
+      pose proof (bit7_low y (nth_ascii a y Hy)) as Hy7.
+      destruct (N.eqb_spec x y) as [->|Hne]; [congruence|reflexivity].
+  Qed.
+
+  Theorem text_enc_bytewise : text_enc ix h inside.
+  Proof.
+    split; [intros q Hq; exact Hq|]. split.
+    - intros fwd q c Hq Hs. unfold next_if. rewrite HA1.
+      destruct (N.ltb_spec c 128) as [Hc|Hc].
+      + (* an ASCII literal: one byte *)
+        assert (He : utf8_encode c = [c]) by (unfold utf8_encode; replace (c <? 128) with true by (symmetry; apply N.ltb_lt; exact Hc); reflexivity).
+        rewrite He. unfold inside in Hq.
+        pose proof (mbs_single h inside (fun q0 H0 => H0) fwd c q Hq) as Hm. unfold mbs, bytestep, byte_if in Hm.
+        destruct (next_byte fwd h q) as [e|[[b q1]|]]; cbn [bindR] in *; [exact I| |].
+        * unfold list_contains in Hm. cbn [existsb] in Hm. rewrite orb_false_r in Hm. rewrite (N.eqb_sym c b).
+          destruct (match_bytes fwd h q [c]) as [e|r]; [discriminate|]. inversion Hm; subst. reflexivity.
+        * destruct (match_bytes fwd h q [c]) as [e|r]; [discriminate|]. inversion Hm; subst. reflexivity.
+      + (* a non-ASCII literal never matches ASCII text, as an element or as bytes *)
+        destruct (enc_head_high c Hc) as (x & t & He & Hx). rewrite He. unfold inside in Hq.
+        assert (Hmb : match_bytes fwd h q (x :: t) = Ok None).
+        { destruct fwd.
+          - rewrite (mb_fwd_unfold h q (x :: t) Hq). destruct (Nat.ltb_spec (len - q) (length (x :: t))); [reflexivity|].
+            rewrite high_not_in_text; [reflexivity|exact Hx|cbn [length]; lia|lia].
+          - rewrite (mb_bwd_unfold h q (x :: t)). destruct (Nat.ltb_spec q (length (x :: t))); [reflexivity|].
+            rewrite high_not_in_text; [reflexivity|exact Hx|cbn [length] in *; lia|lia]. }
+        rewrite Hmb.
+        destruct (next_byte fwd h q) as [e|[[b q1]|]] eqn:En; cbn [bindR]; [exact I| |reflexivity].
+        assert (Hb128 : b < 128).
+        { unfold next_byte in En. destruct fwd.
+          - unfold peek_byte_right in En. destruct (q =? len)%nat; cbn [bindR] in En; [discriminate|].
+            unfold getb in En. destruct (nth_error h q) eqn:Eq; cbn [bindR] in En; [|discriminate]. inversion En; subst.
+            eapply nth_ascii; eauto.
+          - unfold peek_byte_left in En. destruct (q =? 0)%nat; cbn [bindR] in En; [discriminate|].
+            destruct (psub q 1) as [e|pq]; cbn [bindR] in En; [discriminate|].
+            unfold getb in En. destruct (nth_error h pq) eqn:Eq; cbn [bindR] in En; [|discriminate]. inversion En; subst.
+            eapply nth_ascii; eauto. }
+        replace (c =? b) with false by (symmetry; apply N.eqb_neq; lia). reflexivity.
+    - intros fwd q c e Hq Hs E. unfold inside in *. destruct fwd.
+      + destruct (mb_fwd_le h q _ e Hq E) as [_ Hle]. exact Hle.
+      + pose proof (mb_bwd_le h q _ e E). lia.
+  Qed.
+End Bytewise.
+
+(* ---- the ASCII indexer, on every byte string ---- *)
+Section AsciiIndexer.
   Variable h : hay.
   Hypothesis Hb : bytes_ok h.
-  Variable unicode : bool.
-  Notation ix := ascii_indexer.
 
-  Lemma as_cnext_byte fwd q : cnext ix fwd h q = next_byte fwd h q.
+  Lemma as_cnext_byte fwd q : cnext ascii_indexer fwd h q = next_byte fwd h q.
   Proof.
     unfold cnext, next_byte. destruct fwd; cbn [ix_next_right ix_next_left ascii_indexer].
     - unfold as_next_right, peek_byte_right. destruct (q =? length h)%nat; [reflexivity|].
@@ -22,109 +222,74 @@ Section AsciiText.
       cbn [bindR]. destruct (getb h (q - 1)); reflexivity.
   Qed.
 
-  Lemma as_byte_step (fwd : bool) (q : nat) b (q1 : nat) : next_byte fwd h q = Ok (Some (b, q1)) ->
-    b < 256 /\ if fwd then q1 = S q /\ (q1 <= length h)%nat else q = S q1 /\ (q <= length h)%nat.
+  Theorem text_ok_ascii unicode : text_ok ascii_indexer unicode h (inside h).
+  Proof. apply text_ok_bytewise; [exact Hb|exact as_cnext_byte|reflexivity|reflexivity|exact ascii_cursor]. Qed.
+
+  Theorem al_all_ascii unicode utf16 n : al ascii_indexer unicode utf16 h (inside h) n.
+  Proof. apply al_range. exact ascii_cursor. Qed.
+
+  Theorem text_enc_ascii : Forall (fun b => b < 128) h -> text_enc ascii_indexer h (inside h).
+  Proof. intro Ha. apply text_enc_bytewise; [exact as_cnext_byte|exact Ha]. Qed.
+End AsciiIndexer.
+
+(* ---- the UTF-8 indexer, on ASCII text ---- *)
+Section Utf8OnAscii.
+  Variable fold : N -> bool -> N.
+  Variable h : hay.
+  Hypothesis Ha : Forall (fun b => b < 128) h.
+  Notation u8 := (utf8_indexer fold).
+
+  Lemma ascii_bytes_ok : bytes_ok h.
+  Proof. unfold bytes_ok. eapply Forall_impl; [|exact Ha]. intros b Hb. cbn beta in *. lia. Qed.
+
+  Lemma getb_low q b : getb h q = Ok b -> b <? 128 = true.
   Proof.
-    unfold next_byte. destruct fwd.
-    - unfold peek_byte_right. destruct (q =? length h)%nat; cbn [bindR]; [discriminate|].
-      destruct (getb h q) as [e|x] eqn:Eg; cbn [bindR]; [discriminate|]. intro H. inversion H; subst.
-      split; [apply N.ltb_lt; eapply getb_ok; eauto|]. split; [reflexivity|].
-      unfold getb in Eg. destruct (nth_error h q) eqn:En; [|discriminate].
-      assert (q < length h)%nat by (apply nth_error_Some; congruence). lia.
-    - unfold peek_byte_left. destruct (q =? 0)%nat eqn:E0; cbn [bindR]; [discriminate|]. apply Nat.eqb_neq in E0.
-      unfold psub. replace (1 <=? q)%nat with true by (symmetry; apply Nat.leb_le; lia). cbn [bindR].
-      destruct (getb h (q - 1)) as [e|x] eqn:Eg; cbn [bindR]; [discriminate|]. intro H. inversion H; subst.
-      split; [apply N.ltb_lt; eapply getb_ok; eauto|]. split; [lia|].
-      unfold getb in Eg. destruct (nth_error h (q - 1)) eqn:En; [|discriminate].
-      assert (q - 1 < length h)%nat by (apply nth_error_Some; congruence). lia.
+    unfold getb. destruct (nth_error h q) eqn:E; [|discriminate]. intro H. inversion H; subst.
+    apply N.ltb_lt. rewrite Forall_forall in Ha. apply Ha. eapply nth_error_In; eauto.
   Qed.
 
-  Lemma as_step_inv (fwd : bool) (q q' : nat) : (if fwd then q' = S q /\ (q' <= length h)%nat else q = S q' /\ (q <= length h)%nat) ->
-    step_inv ix h fwd q q' = true.
+  Lemma u8_cnext_byte fwd q : cnext u8 fwd h q = next_byte fwd h q.
   Proof.
-    intro H. unfold step_inv. cbn [ix_next_left_pos ix_next_right_pos ascii_indexer].
-    unfold as_next_left_pos, as_next_right_pos, try_move_left, try_move_right. destruct fwd.
-    - destruct H as [-> Hle].
-      replace (S q <? 1)%nat with false by (symmetry; apply Nat.ltb_ge; lia).
-      replace (q <=? length h)%nat with true by (symmetry; apply Nat.leb_le; lia). cbn [bindR].
-      replace (length h - q <? 1)%nat with false by (symmetry; apply Nat.ltb_ge; lia).
-      replace (S q - 1)%nat with q by lia. replace (q + 1)%nat with (S q) by lia.
-      rewrite !Nat.eqb_refl. cbn [andb].
-      replace (q <=? length h)%nat with true by (symmetry; apply Nat.leb_le; lia).
-      replace (S q <=? length h)%nat with true by (symmetry; apply Nat.leb_le; lia).
-      replace (q <? S q)%nat with true by (symmetry; apply Nat.ltb_lt; lia). reflexivity.
-    - destruct H as [-> Hle].
-      replace (q' <=? length h)%nat with true by (symmetry; apply Nat.leb_le; lia). cbn [bindR].
-      replace (length h - q' <? 1)%nat with false by (symmetry; apply Nat.ltb_ge; lia).
-      replace (S q' <? 1)%nat with false by (symmetry; apply Nat.ltb_ge; lia).
-      replace (q' + 1)%nat with (S q') by lia. replace (S q' - 1)%nat with q' by lia.
-      rewrite !Nat.eqb_refl. cbn [andb].
-      replace (S q' <=? length h)%nat with true by (symmetry; apply Nat.leb_le; lia).
-      replace (q' <=? length h)%nat with true by (symmetry; apply Nat.leb_le; lia).
-      replace (q' <? S q')%nat with true by (symmetry; apply Nat.ltb_lt; lia). reflexivity.
+    unfold cnext, next_byte. destruct fwd; cbn [ix_next_right ix_next_left utf8_indexer].
+    - unfold u8_next_right, peek_byte_right. destruct (q =? length h)%nat; [reflexivity|].
+      destruct (getb h q) as [e|b] eqn:Eg; cbn [bindR]; [reflexivity|]. rewrite (getb_low q b Eg). reflexivity.
+    - unfold u8_next_left, peek_byte_left. destruct (q =? 0)%nat; [reflexivity|].
+      unfold psub. destruct (1 <=? q)%nat; cbn [bindR]; [|reflexivity].
+      destruct (getb h (q - 1)) as [e|b] eqn:Eg; cbn [bindR]; [reflexivity|]. rewrite (getb_low (q - 1) b Eg). reflexivity.
   Qed.
 
-  Lemma as_next_if_step fwd q t q' : next_if ix fwd h q t = Ok (Some q') -> step_inv ix h fwd q q' = true.
+  Lemma u8_right_pos q : (q <= length h)%nat -> ix_next_right_pos u8 h q = try_move_right h q 1.
   Proof.
-    unfold next_if. rewrite as_cnext_byte. destruct (next_byte fwd h q) as [e|[[b q1]|]] eqn:En; cbn [bindR]; try discriminate.
-    destruct (t b); [|discriminate]. intro H. inversion H; subst. apply as_step_inv. apply (as_byte_step fwd q b q' En).
+    intro Hq. cbn [ix_next_right_pos utf8_indexer]. unfold u8_next_right_pos, try_move_right.
+    replace (q <=? length h)%nat with true by (symmetry; apply Nat.leb_le; exact Hq). cbn [bindR].
+    destruct (Nat.eqb_spec q (length h)) as [->|Hne].
+    - rewrite Nat.sub_diag. reflexivity.
+    - replace (length h - q <? 1)%nat with false by (symmetry; apply Nat.ltb_ge; lia).
+      destruct (getb h q) as [e|b] eqn:Eg; cbn [bindR].
+      + unfold getb in Eg. destruct (nth_error h q) eqn:En; [discriminate|]. apply nth_error_None in En. lia.
+      + rewrite (getb_low q b Eg). f_equal. f_equal. lia.
   Qed.
 
-  Lemma as_byte_if_step fwd q t q' : byte_if fwd h q t = Ok (Some q') -> step_inv ix h fwd q q' = true.
+  Lemma u8_left_pos q : (q <= length h)%nat -> ix_next_left_pos u8 h q = try_move_left h q 1.
   Proof.
-    unfold byte_if. destruct (next_byte fwd h q) as [e|[[b q1]|]] eqn:En; cbn [bindR]; try discriminate.
-    destruct (t b); [|discriminate]. intro H. inversion H; subst. apply as_step_inv. apply (as_byte_step fwd q b q' En).
+    intro Hq. cbn [ix_next_left_pos utf8_indexer]. unfold u8_next_left_pos, try_move_left.
+    destruct (Nat.eqb_spec q 0) as [->|Hne]; [reflexivity|].
+    replace (q <? 1)%nat with false by (symmetry; apply Nat.ltb_ge; lia).
+    unfold psub. replace (1 <=? q)%nat with true by (symmetry; apply Nat.leb_le; lia). cbn [bindR].
+    destruct (getb h (q - 1)) as [e|b] eqn:Eg; cbn [bindR].
+    - unfold getb in Eg. destruct (nth_error h (q - 1)) eqn:En; [discriminate|]. apply nth_error_None in En. lia.
+    - rewrite (getb_low (q - 1) b Eg). reflexivity.
   Qed.
 
-  (* every position counts as well-formed *)
-  Theorem text_ok_ascii : text_ok ix unicode h (fun _ => True).
+  Theorem text_ok_utf8_on_ascii unicode : text_ok u8 unicode h (inside h).
   Proof.
-    split; [intros; exact I|]. split; [intros; exact I|]. split; [|split; [|split]].
-    - intros fwd p c p' _ E. rewrite as_cnext_byte in E. destruct (as_byte_step fwd p c p' E) as [Hc _].
-      unfold CODE_POINT_MAX. lia.
-    - intros fwd q _. rewrite as_cnext_byte. destruct (next_byte fwd h q) as [e|[[b q1]|]] eqn:En; [exact I| |reflexivity].
-      destruct (b <? 128) eqn:E128; [reflexivity|]. exists b, q1. split; [reflexivity|]. apply N.ltb_ge. exact E128.
-    - intros fwd q _. rewrite as_cnext_byte. destruct (next_byte fwd h q) as [e|[[b q1]|]] eqn:En; [exact I| |reflexivity].
-      destruct (b <? 128) eqn:E128; [reflexivity|]. exists b, q1. split; [reflexivity|]. apply N.ltb_ge. exact E128.
-    - intros body fwd s q q' H1 _ Es Esq.
-      destruct body; try discriminate H1; unfold single_step, leaf_code in Es.
-      + (* Char *)
-        inversion Es; subst s. cbn [run_insns] in Esq. unfold char_pike in Esq.
-        destruct (next_if ix fwd h q (N.eqb c)) as [e|[p1|]] eqn:En; try discriminate.
-        cbn [run_insns] in Esq. inversion Esq; subst. eapply as_next_if_step; eauto.
-      + (* CharSet *)
-        unfold emit_char_set in Es. destruct cs as [|c0 cs]; [discriminate H1|].
-        destruct (4 <? length (c0 :: cs))%nat; [discriminate|]. inversion Es; subst s.
-        cbn [run_insns match1] in Esq.
-        match type of Esq with context [next_if ?a ?b ?c ?d ?t] => destruct (next_if a b c d t) as [e|[p1|]] eqn:En end; try discriminate.
-        cbn [run_insns] in Esq. inversion Esq; subst. eapply as_next_if_step; eauto.
-      + (* MatchAny *)
-        inversion Es; subst s. cbn [run_insns match1] in Esq.
-        match type of Esq with context [next_if ?a ?b ?c ?d ?t] => destruct (next_if a b c d t) as [e|[p1|]] eqn:En end; try discriminate.
-        cbn [run_insns] in Esq. inversion Esq; subst. eapply as_next_if_step; eauto.
-      + inversion Es; subst s. cbn [run_insns match1] in Esq.
-        match type of Esq with context [next_if ?a ?b ?c ?d ?t] => destruct (next_if a b c d t) as [e|[p1|]] eqn:En end; try discriminate.
-        cbn [run_insns] in Esq. inversion Esq; subst. eapply as_next_if_step; eauto.
-      + (* Bracket *)
-        destruct (bracket_as_ascii b) as [bm|].
-        * inversion Es; subst s. cbn [run_insns match1] in Esq.
-          destruct (byte_if fwd h q (ascii_bitmap_contains bm)) as [e|[p1|]] eqn:En; try discriminate.
-          cbn [run_insns] in Esq. inversion Esq; subst. eapply as_byte_if_step; eauto.
-        * inversion Es; subst s.
-          destruct (next_if ix fwd h q (bracket_matches b)) as [e|[p1|]] eqn:En; try discriminate.
-          inversion Esq; subst. eapply as_next_if_step; eauto.
+    apply text_ok_bytewise; [exact ascii_bytes_ok|exact u8_cnext_byte|exact u8_right_pos|exact u8_left_pos|].
+    intros h' fwd p c p'. apply u8_cursor.
   Qed.
 
-  (* and every node stays among them *)
-  Lemma al_all_ascii : forall utf16 n, al ix unicode utf16 h (fun _ => True) n.
-  Proof.
-    intros utf16. induction n as [n Hleaf|l H|a b IHa IHb|id c nm IHc|neg bw sg eg c IHc|b mn mx g egs ege IHb|b mn mx g IHb] using node_ind2.
-    - destruct n; try contradiction; (split; [intros f fwd x r _ _; apply Forall_forall; intros; exact I|intros lb fwd s _ q q' _ _; exact I]).
-    - apply al_cat. exact H.
-    - split; assumption.
-    - exact IHc.
-    - exact IHc.
-    - exact IHb.
-    - exact IHb.
-  Qed.
-End AsciiText.
+  Theorem al_all_utf8_on_ascii unicode utf16 n : al u8 unicode utf16 h (inside h) n.
+  Proof. apply al_range. intros h' fwd p c p'. apply u8_cursor. Qed.
+
+  Theorem text_enc_utf8_on_ascii : text_enc u8 h (inside h).
+  Proof. apply text_enc_bytewise; [exact u8_cnext_byte|exact Ha]. Qed.
+End Utf8OnAscii.
